@@ -60,14 +60,18 @@ func (c *capture) WithGroup(string) slog.Handler      { return c }
 type res struct {
 	ip   string
 	fail bool
+	zone string
 }
 
 func (r *res) ClientIP(fox.Context) (*net.IPAddr, error) {
 	if r.fail {
 		return nil, errors.New("cannot resolve")
 	}
-	return &net.IPAddr{IP: net.ParseIP(r.ip)}, nil
+	return &net.IPAddr{IP: net.ParseIP(r.ip), Zone: r.zone}, nil
 }
+
+// text is what the resolver's answer reads like (the address, with its zone when it has one).
+func (r *res) text() string { return (&net.IPAddr{IP: net.ParseIP(r.ip), Zone: r.zone}).String() }
 
 type under struct {
 	h   http.Header
@@ -81,6 +85,12 @@ func (u *under) WriteHeader(c int) {
 func (u *under) Write(b []byte) (int, error) {
 	u.log = append(u.log, fmt.Sprintf("body %d", len(b)))
 	return len(b), nil
+}
+
+// FlushError commits the implicit 200 header like net/http does.
+func (u *under) FlushError() error {
+	u.log = append(u.log, "flush")
+	return nil
 }
 
 type behaviour struct {
@@ -106,6 +116,9 @@ func behaviours() []behaviour {
 		behaviour{"303 without Location", 303, func(c fox.Context) { c.Writer().WriteHeader(303) }, ""},
 		behaviour{"200 with a Location header", 200, func(c fox.Context) { c.SetHeader("Location", "/ignored"); c.Writer().WriteHeader(200) }, ""},
 		behaviour{"404 via helper", 404, func(c fox.Context) { _ = c.String(404, "nope") }, ""},
+		behaviour{"flush, then WriteHeader(500)", 200, func(c fox.Context) { _ = c.Writer().FlushError(); c.Writer().WriteHeader(500) }, ""},
+		behaviour{"flush, then http.Error 503", 200, func(c fox.Context) { _ = c.Writer().FlushError(); http.Error(c.Writer(), "late", 503) }, ""},
+		behaviour{"WriteHeader(404), flush, WriteHeader(200)", 404, func(c fox.Context) { c.Writer().WriteHeader(404); _ = c.Writer().FlushError(); c.Writer().WriteHeader(200) }, ""},
 		behaviour{"double WriteHeader 201 then 500", 201, func(c fox.Context) { c.Writer().WriteHeader(201); c.Writer().WriteHeader(500) }, ""},
 	)
 	return out
@@ -153,6 +166,8 @@ func main() {
 		{"global ok, route override none", ok, nil, true},
 		{"no global, route override ok", nil, rok, false},
 		{"global failing, route override ok", bad, rok, false},
+		{"global ok with a zone", &res{ip: "fe80::1", zone: "eth0"}, nil, false},
+		{"global ok, route override ok with a zone", ok, &res{ip: "fe80::2", zone: "wlan0"}, false},
 	}
 	behs := behaviours()
 	mins := []slog.Level{slog.LevelDebug - 4, slog.LevelInfo, slog.LevelWarn, slog.LevelError}
@@ -437,7 +452,7 @@ func one(run *kit.Run, f, plain *fox.Router, cap *capture, cfg resolverCfg, b be
 	}
 	want := remoteIP
 	if eff != nil {
-		want = eff.ip
+		want = eff.text()
 		if eff.fail {
 			want = "unknown"
 		}
